@@ -97,6 +97,7 @@ func cmdRun(args []string) int {
 	budget := fs.Int("budget", 0, "step budget")
 	timeout := fs.Int("qtimeout", 10000, "query timeout ms")
 	spare := fs.Int("spare", 0, "append spare")
+	maxSw := fs.Int("preempt", 0, "preemption bound for schedules (0 = unbounded)")
 	pathSec := fs.Int("pathsec", 0, "per-path wall clock limit")
 	limit := fs.Int("limit", 0, "stop exploring after this many seconds")
 	noModels := fs.Bool("nomodels", false, "run real code instead of validated models")
@@ -109,7 +110,7 @@ func cmdRun(args []string) int {
 		return 2
 	}
 	fmt.Printf("loaded in %.1fs\n", p.LoadTimeS)
-	spec := sym.HarnessSpec{Pkg: modPath + "/" + *pkg, Func: *fn, Opts: sym.Options{Trace: *trace, Merge: *merge, NoRegion: *noRegion, StepBudget: *budget, QueryTimeout: *timeout, AppendSpare: *spare, MaxMergePath: *mergePaths, NoDomain: *noDomain, NoModels: *noModels, PathSeconds: *pathSec}}
+	spec := sym.HarnessSpec{Pkg: modPath + "/" + *pkg, Func: *fn, Opts: sym.Options{Trace: *trace, Merge: *merge, NoRegion: *noRegion, StepBudget: *budget, QueryTimeout: *timeout, AppendSpare: *spare, MaxMergePath: *mergePaths, NoDomain: *noDomain, NoModels: *noModels, PathSeconds: *pathSec, MaxSwitches: *maxSw}}
 	dl := time.Time{}
 	if *limit > 0 {
 		dl = time.Now().Add(time.Duration(*limit) * time.Second)
